@@ -130,6 +130,68 @@ fn check_readback(bytes: &[u8], kvs: &[Kv], full: bool) -> Result<(), String> {
     Ok(())
 }
 
+/// A map whose ROOT has a transition with an address delta of exactly
+/// `target` (2^8, 2^16, 2^24 and their neighbours: the boundaries between 1-,
+/// 2-, 3- and 4-byte deltas). Keys: "ax" (compiled first, so its node has a
+/// small address), a bulk of wide nodes under 'b', and a chain "c" + "z"*L
+/// whose length L is calibrated with the independent decoder until the delta
+/// of the root's 'a' transition is the target.
+pub fn delta_boundary_kvs(target: usize) -> Result<Vec<Kv>, String> {
+    let make = |wide: usize, l: usize| -> Vec<Kv> {
+        let mut kvs: Vec<Kv> = vec![(b"ax".to_vec(), 3)];
+        'outer: for h in 0..=255u8 {
+            for lo in 0..=255u8 {
+                if (h as usize) * 256 + lo as usize >= wide {
+                    break 'outer;
+                }
+                for b in 0..=255u8 {
+                    let i = ((h as u64) << 16) | ((lo as u64) << 8) | b as u64;
+                    kvs.push((vec![b'b', h, lo, b], (1u64 << 56) | (mix64(i) >> 9)));
+                }
+            }
+        }
+        let mut filler = vec![b'c'];
+        filler.extend(std::iter::repeat(b'z').take(l));
+        kvs.push((filler, 1));
+        kvs
+    };
+    let measure = |kvs: &[Kv]| -> Result<usize, String> {
+        let bytes = front::build(Front::RawInsert, DEFAULT_GEOM, kvs)?;
+        let d = crate::codec::decode(&bytes).map_err(|e| format!("machinery: decoder: {}", e))?;
+        let root = d.nodes.get(&d.root).ok_or("machinery: no root")?;
+        let t = root.trans.iter().find(|t| t.0 == b'a').ok_or("machinery: no 'a' transition")?;
+        Ok(root.start - t.2)
+    };
+    // size of the bulk: measured, not assumed
+    let base = measure(&make(0, 1))?;
+    let per = (measure(&make(8, 1))? - base) / 8 + 1;
+    let wide = if target > base + 3 * per { (target - base - 2 * per) / per } else { 0 };
+    // calibrate on target + 9 (not a boundary value, so that a builder that is wrong AT the
+    // boundary does not disturb the calibration), then take 9 filler bytes away unmeasured:
+    // every filler byte is one 1-byte node
+    let aim = target + 9;
+    let mut l = 10usize;
+    for _ in 0..6 {
+        let got = measure(&make(wide, l))?;
+        if got == aim {
+            let kvs = make(wide, l - 9);
+            // on a correct builder the delta is now exactly the target (a decoder error here
+            // is left to the check itself: the builder may be wrong at the boundary)
+            if let Ok(d) = measure(&kvs) {
+                if d != target {
+                    return Err(format!("machinery: calibrated to {} but the final delta is {} instead of {}", aim, d, target));
+                }
+            }
+            return Ok(kvs);
+        }
+        if got > aim + l {
+            return Err(format!("machinery: the bulk alone already gives a delta of {} > {}", got, aim));
+        }
+        l = (l as i64 + aim as i64 - got as i64).max(10) as usize;
+    }
+    Err(format!("machinery: could not calibrate a root delta of {}", target))
+}
+
 /// One case: build through `front` under `geom`, read back through every
 /// reader. Returns the FNV of the produced bytes as the observation.
 pub fn run_case(kvs: &[Kv], fr: Front, geom: Geom, full: bool) -> Result<u64, String> {
@@ -143,6 +205,10 @@ fn case_json(kvs: &[Kv], fr: Front, geom: Geom) -> Value {
 }
 
 pub fn replay(case: &Value) -> Result<String, String> {
+    if let Some(t) = case["delta_target"].as_u64() {
+        let kvs = delta_boundary_kvs(t as usize)?;
+        return run_case(&kvs, Front::RawInsert, DEFAULT_GEOM, false).map(|h| format!("bytes fnv {:x}", h));
+    }
     let kvs = if case["big_dense"].as_bool() == Some(true) { big_dense_family() } else { kvs_from(&case["kvs"]) };
     let fr = front_from(case["front"].as_str().unwrap());
     let geom = geom_from(&case["geom"]);
@@ -176,7 +242,7 @@ fn dup_of_ab3(u: &Universe, keys: &[Key]) -> bool {
 
 pub fn plan(tier: Tier) -> Plan {
     let mut p = Plan::new("C01", "model_checking");
-    p.rule = "every subset of each key universe (= every valid insert history) x value patterns x cache geometries x front ends is built with the real builder, finished and read back through every reader; a case is non-trivial when it has >= 2 keys; cases are distinct by construction (key sets of U_abc2 without 'c' are skipped as duplicates of U_ab3)".into();
+    p.rule = "every subset of each key universe (= every valid insert history) x value patterns x cache geometries x front ends is built with the real builder, finished and read back through every reader; a case is non-trivial when it has >= 2 keys; cases are distinct by construction (key sets of U_abc2 without 'c' are skipped as duplicates of U_ab3); maps calibrated (with the independent decoder) so that the root reaches a node by an address delta of exactly 2^8, 2^16, 2^24 and their neighbours; the same wide node compiled again under every tiny cache geometry; readers also through map_data, clone/From/AsRef conversions, alternating and half-dropped streams and a node-by-node walk through the public node API".into();
     p.assumptions = vec![
         "harness reference model (BTreeMap order) is the specification of 'lexicographic byte order'".into(),
         "front ends other than raw::Builder can only be run under the default cache geometry".into(),
@@ -414,6 +480,31 @@ pub fn plan(tier: Tier) -> Plan {
             do_case(&kvs, Front::MapInsert, DEFAULT_GEOM, false, st, rep);
         }
     }));
+    // (d4c) address deltas exactly at the 1/2/3/4-byte boundaries
+    for k in [8u32, 16, 24] {
+        for off in [-1i64, 0, 1] {
+            let target = ((1i64 << k) + off) as usize;
+            p.units.push(unit("root-delta-exactly-at-2^8-2^16-2^24-(calibrated-family)", format!("delta {}", target), move |st, rep| {
+                match delta_boundary_kvs(target) {
+                    Ok(kvs) => {
+                        st.nontrivial += 1;
+                        st.count("calibrated_delta_cases", 1);
+                        do_case(&kvs, Front::RawInsert, DEFAULT_GEOM, false, st, rep);
+                        // lookups through the calibrated transition
+                        let bytes = match front::build(Front::RawInsert, DEFAULT_GEOM, &kvs) { Ok(b) => b, Err(_) => return };
+                        let f = match Fst::new(&bytes[..]) { Ok(f) => f, Err(_) => return };
+                        if f.get(b"ax").map(|o| o.value()) != Some(3) || f.get(b"a").is_some() || f.get(&kvs.last().unwrap().0).map(|o| o.value()) != Some(1) {
+                            rep.violation(format!("delta {}", target), format!("get(ax) = {:?}, get(a) = {:?} on a map whose root reaches 'a' by an address delta of exactly {}", f.get(b"ax").map(|o| o.value()), f.get(b"a").map(|o| o.value()), target), json!({"delta_target": target}));
+                        }
+                    }
+                    Err(msg) => {
+                        eprintln!("{}", msg);
+                        std::process::exit(2);
+                    }
+                }
+            }));
+        }
+    }
     // (d4b) key-length ladder: every length 2..1100 and around 2^11..2^16
     for part in 0..16usize {
         p.units.push(unit("key-length-ladder-(finite-family)", format!("length ladder part {}", part), move |st, rep| {
